@@ -315,6 +315,11 @@ func (e *Effects) findMutation(fn *ssa.Function, d *derivation) *mutWitness {
 			if ia, ok := x.Addr.(*ssa.IndexAddr); ok && isElemBase(ia.X) {
 				set(ins, "element store")
 			}
+			// a store into a field of the tracked object itself (stride/shape metadata, a scratch field), directly or
+			// into an element of an array- or slice-valued field
+			if fieldOfTracked(d, x.Addr, 0) {
+				set(ins, "store into a field of the array object")
+			}
 		case *ssa.MakeClosure:
 			cl, _ := x.Fn.(*ssa.Function)
 			if cl == nil {
@@ -391,6 +396,31 @@ func (e *Effects) findMutation(fn *ssa.Function, d *derivation) *mutWitness {
 		}
 	})
 	return w
+}
+
+// fieldOfTracked: addr lies inside the tracked object: &obj.f, &obj.f[i], &(obj.f[:])[i], &obj.Common.f …
+func fieldOfTracked(d *derivation, addr ssa.Value, depth int) bool {
+	if depth > 6 {
+		return false
+	}
+	switch a := addr.(type) {
+	case *ssa.FieldAddr:
+		if d.vals[a.X] {
+			if _, isPtr := a.X.Type().Underlying().(*types.Pointer); isPtr {
+				return true
+			}
+		}
+		return fieldOfTracked(d, a.X, depth+1)
+	case *ssa.IndexAddr:
+		// element of an array field (address) or of a slice made from one
+		switch b := a.X.(type) {
+		case *ssa.FieldAddr:
+			return fieldOfTracked(d, b, depth+1)
+		case *ssa.Slice:
+			return fieldOfTracked(d, b.X, depth+1)
+		}
+	}
+	return false
 }
 
 // Mutates reports whether fn may write through parameter index k (receiver = 0 for methods).
